@@ -133,8 +133,11 @@ let () =
           (match detect (parse_hexbytes t.(1)) with
            | Fault -> print_endline "FAULT"
            | Ok (e, off) -> Printf.printf "%s %d\n" (type_name e) (int_of_nat off))
-        | "detect.stream" ->
-          (match detect_stream (t.(1) = "1") (stream_of (parse_hexbytes t.(3)) (seekable_of t.(2))) with
+        | "detect.stream" | "detect.at" ->
+          let at = t.(0) = "detect.at" in
+          let s0 = stream_of (parse_hexbytes t.(if at then 4 else 3)) (seekable_of t.(2)) in
+          let s0 = if at then snd (is_read (nat_of_int (int_of_string t.(3))) s0) else s0 in
+          (match detect_stream (t.(1) = "1") s0 with
            | Fault -> print_endline "FAULT"
            | Ok (e, s) ->
              let eof = s.is_eof and fail = s.is_fail in
